@@ -48,7 +48,11 @@ def run_case(case: dict[str, Any]) -> dict[str, Any]:
         kw: dict[str, Any] = {}
         if align is not None:
             kw["align_to"] = EPOCH + timedelta(seconds=align)
-            if case.get("align_tz_min"):
+            if case.get("align_zone"):
+                from zoneinfo import ZoneInfo
+
+                kw["align_to"] = kw["align_to"].astimezone(ZoneInfo(case["align_zone"]))
+            elif case.get("align_tz_min"):
                 # the same instant written in another time zone
                 kw["align_to"] = kw["align_to"].astimezone(timezone(timedelta(minutes=case["align_tz_min"])))
         else:
@@ -118,8 +122,11 @@ def run_case(case: dict[str, Any]) -> dict[str, Any]:
                     ts = base + timedelta(seconds=k * period) - timedelta(seconds=case["max_age"] * period)
                 else:
                     ts = now
-                if last_ts is not None and ts <= last_ts:
-                    ts = last_ts + timedelta(microseconds=1)
+                if ts_kind == "same" and last_ts is not None:
+                    ts = last_ts  # a source with a coarse clock: two samples with one timestamp (still time-ordered)
+                elif last_ts is not None and ts <= last_ts:
+                    ts = last_ts + (timedelta(0) if case.get("allow_equal_ts") and ts == last_ts
+                                    else timedelta(microseconds=1))
                 last_ts = ts
                 uid[0] += 1
                 my = float(uid[0])
